@@ -30,6 +30,9 @@ type Case struct {
 	Names   []NameRec
 	KF      string // id of the known finding whose shape this input has ("" = none)
 	NoPredict bool // hand-written source: outside the abstract syntax of the models
+	Install   string // regenerate with the first output installed under this file name (C15)
+	AliasOverride map[string]string // model input only: aliases as harvested when moq's own output is part of the package
+	FailAfter *int   // writer that fails after so many bytes (C17)
 
 	Resp *GenResp
 	Obs  *Obs
@@ -65,6 +68,7 @@ type caseRec struct {
 	Names      []NameRec  `json:"names"`
 	Solo       []MockObs  `json:"solo"`
 	SoloIdx    []int      `json:"soloIdx"`
+	FailingWriter bool    `json:"failingWriter"`
 	Obs        *Obs       `json:"obs"`
 }
 
@@ -161,6 +165,10 @@ func RunCases(sc *core.Scratch, ev *core.Evidence, tag string, cases []*Case) (*
 		}
 		r := c.req(c.Cfg.Fmt, c.Cfg.Args, rep)
 		r.Cwd = w.Dir
+		r.Install = c.Install
+		if c.FailAfter != nil {
+			r.FailAfter = *c.FailAfter
+		}
 		reqs = append(reqs, r)
 		slots = append(slots, slot{c, "main", 0})
 		if c.RunFmts {
@@ -274,7 +282,7 @@ func JudgeCases(sc *core.Scratch, ev *core.Evidence, tag string, cases []*Case) 
 			exp = c.Src.Name
 		}
 		rec := caseRec{Case: c.ID, Origin: c.Origin, Judge: c.Judge, ExpectPkg: exp, Cfg: c.Cfg, SrcAliases: c.srcAliases(), Names: c.Names,
-			Solo: c.Solos, SoloIdx: c.SoloIdx, Obs: c.Obs}
+			Solo: c.Solos, SoloIdx: c.SoloIdx, Obs: c.Obs, FailingWriter: c.FailAfter != nil}
 		if rec.Names == nil {
 			rec.Names = []NameRec{}
 		}
